@@ -283,7 +283,7 @@ for _d in (1, 2, 3):
     for _a in range(0, 7):
         for _b in range(0, 4):
             if exact_domain(_d, _a, _b) and _a + _b <= (8 if _d == 1 else 4):
-                _mk_segment_ob(_d, _a, _b, "quick" if _a + _b <= (4 if _d == 1 else 3) else "thorough")
+                _mk_segment_ob(_d, _a, _b, "quick" if _a + _b <= 4 else "thorough")
 _mk_inexact(2, 3, 2)
 _mk_inexact(3, 2, 0)
 _mk_inexact(3, 1, 1)
